@@ -202,6 +202,71 @@ pub fn run(ctx: &Ctx) -> i32 {
             }
         });
     }
+
+    // opaque cels with one non-opaque pixel at the first / middle / each of the last 9 positions
+    if ctx.wants_family("tail-pixels") {
+        use crate::common::{load, Loaded};
+        use mc_core::ase::*;
+        use mc_core::gen;
+        let shapes: [(u16, u16); 6] = [(9, 9), (13, 5), (67, 1), (10, 10), (8, 8), (3, 23)];
+        let cases: Vec<(usize, usize, u8)> = (0..shapes.len()).flat_map(|s| (0..11usize).flat_map(move |p| [0u8, 128].into_iter().map(move |a| (s, p, a)))).collect();
+        ctx.family("tail-pixels", cases.len() as u64, "an opaque backdrop under a canvas-covering opaque cel (both opacities 255) with ONE pixel of alpha 0 or 128 at the first, middle or one of the last 9 positions, rendered in Normal and in Multiply mode: (1) equal alpha in both modes, (2) the transparent pixel leaves the backdrop unchanged in both", true);
+        cases.par_iter().for_each(|(sh, pos, a)| {
+            let (w, h) = shapes[*sh];
+            let n = w as usize * h as usize;
+            let case = || format!("{}x{} position#{} alpha={}", w, h, pos, a);
+            if !ctx.wants("tail-pixels", &case) {
+                return;
+            }
+            let at = match *pos {
+                0 => 0,
+                1 => n / 2,
+                p => n - 1 - (p - 2),
+            };
+            let render = |mode: u16| -> Option<Vec<[u8; 4]>> {
+                let fmt = mc_core::sem::Fmt::Rgba;
+                let mut f = gen::file(w, h, &fmt, &[10]);
+                f.frames[0].push(Body::Layer(Layer::image("back")));
+                let mut top = Layer::image("top");
+                top.blend = mode;
+                f.frames[0].push(Body::Layer(top));
+                f.frames[0].push(gen::raw_cel(0, 0, 0, 255, w, h, [255u8, 0, 0, 255].iter().cycle().take(n * 4).copied().collect()));
+                let mut px = gen::opaque_pixels(&fmt, w as usize, h as usize, 3, (0, 0));
+                px[at * 4 + 3] = *a;
+                f.frames[0].push(gen::raw_cel(1, 0, 0, 255, w, h, px));
+                match load(&f.encode()) {
+                    Loaded::Ok(file) => {
+                        let mut p = Vec::new();
+                        crate::observe::guarded(&mut p, || "frame(0).image".into(), || file.frame(0).image()).map(|i| i.pixels().map(|q| q.0).collect())
+                    }
+                    _ => None,
+                }
+            };
+            ctx.eval_n(1, 2 * n as u64);
+            let (Some(nrm), Some(mul)) = (render(0), render(1)) else {
+                ctx.violation(Violation { family: "tail-pixels".into(), case: case(), sig: "render-failed".into(), detail: "load or render failed".into(), bytes: None, extra: json!({}) });
+                return;
+            };
+            ctx.outcome(hash64(&nrm));
+            let mut bad = None;
+            for k in 0..n {
+                if nrm[k][3] != mul[k][3] {
+                    bad = Some((1, format!("pixel {}: alpha {} in Normal mode, {} in Multiply mode", k, nrm[k][3], mul[k][3])));
+                    break;
+                }
+            }
+            if bad.is_none() && *a == 0 {
+                for (nm, r) in [("Normal", &nrm), ("Multiply", &mul)] {
+                    if r[at] != [255, 0, 0, 255] {
+                        bad = Some((2, format!("{}: the fully transparent source pixel {} changed the backdrop to {:?}", nm, at, r[at])));
+                    }
+                }
+            }
+            if let Some((law, msg)) = bad {
+                ctx.violation(Violation { family: "tail-pixels".into(), case: case(), sig: format!("law{}:tail", law), detail: msg, bytes: None, extra: json!({}) });
+            }
+        });
+    }
     ctx.set_extra("pixels_checked", json!(pixels.load(Relaxed)));
     ctx.set_extra("law_applications", json!({"1_alpha_equals_normal": law_hits[0].load(Relaxed), "2_backdrop_unchanged": law_hits[1].load(Relaxed), "3_transparent_backdrop": law_hits[2].load(Relaxed), "4_normal_identity": law_hits[3].load(Relaxed)}));
     ctx.sample(json!({"mode": "hue", "backdrop": [0, 127, 255, 128], "source": [1, 1, 128, 0], "layer_opacity": 255, "cel_opacity": 255, "law": 2, "meaning": "fully transparent source over a visible backdrop: result must equal the backdrop"}));
